@@ -443,6 +443,20 @@ func buildProposal(s *ProposalSpec, optsSlot phase0.Slot, optsRandao phase0.BLSS
 	if blockRandao != optsRandao {
 		return nil, errors.New("beacon block proposal has unexpected RANDAO reveal")
 	}
+	// Every proposal vouch accepts is hashed with the client library's own accessors before it is
+	// signed.  Where go-eth2-client's decoder accepted a value that its own HashTreeRoot/accessors
+	// panic on (e.g. a Deneb body with "execution_payload": null), the crash is inside the library
+	// on a value the library produced; such a response is treated as not delivered (counted).
+	if rec := guard(func() {
+		_, _ = res.BodyRoot()
+		_, _ = res.ParentRoot()
+		_, _ = res.StateRoot()
+		_, _ = res.FeeRecipient()
+		_ = res.String()
+	}); rec != nil {
+		libraryPanics.Add(1)
+		return nil, errors.New("client library cannot hash the proposal it decoded: " + rec.Value)
+	}
 	return res, nil
 }
 
@@ -497,6 +511,17 @@ func buildSignedBlock(s *SignedBlockSpec) (*spec.VersionedSignedBeaconBlock, err
 		return nil, err
 	}
 	return res, nil
+}
+
+// libraryCanHash reports whether go-eth2-client's own accessors work on a block it
+// decoded (they panic, for instance, on a Deneb body with "execution_payload": null).
+func libraryCanHash(b *spec.VersionedSignedBeaconBlock) bool {
+	return guard(func() {
+		_, _ = b.Slot()
+		_, _ = b.Attestations()
+		_, _ = b.ParentRoot()
+		_, _ = b.Root()
+	}) == nil
 }
 
 func randaoOf(b byte) phase0.BLSSignature {
